@@ -10,6 +10,9 @@
 //     warm 1: train once with accuracy 0.1, then again (same model object => warm start) with eps
 //     warm 2: as 1, but the first training uses 4*C-, 4*C+ (the old coefficients leave the new box: the clipping matters)
 //     warm 3: as 1, but the first training already uses eps: restart from the (eps-)optimal solution with unchanged C
+//     warm 4: "reused trainer": (1) train to convergence (line R1), (2) a FRESH trainer with maxIterations = m = 2 + n%3 and a fresh
+//             model object (line RF, reference), (3) the FIRST trainer object again with maxIterations = m and a fresh model
+//             object (line R): its report must not depend on call (1).  Line  N id m  gives m.
 //     Cneg == Cpos: the one-regulariser constructor is used, otherwise the two-regulariser one
 // output:
 //   Q id k dims lin_0.. lo_0.. hi_0.. alpha0_0..     the problem as QpSolver::solve receives it (k-th solve of the case)
@@ -114,9 +117,9 @@ void configure(Trainer& t, Cfg const& c, double eps) {
 }
 
 template<class Trainer>
-void report(Cfg const& c, Trainer& t, KernelExpansion<RealVector> const& f) {
+void report(Cfg const& c, Trainer& t, KernelExpansion<RealVector> const& f, const char* tag = "R") {
 	QpSolutionProperties const& p = t.solutionProperties();
-	std::printf("R %s %d %llu %a %a %zu", c.id.c_str(), (int)p.type, p.iterations, p.value, p.accuracy, (std::size_t)(f.hasOffset() ? 1 : 0));
+	std::printf("%s %s %d %llu %a %a %zu", tag, c.id.c_str(), (int)p.type, p.iterations, p.value, p.accuracy, (std::size_t)(f.hasOffset() ? 1 : 0));
 	std::printf(" %a", f.hasOffset() ? f.offset()(0) : 0.0);
 	std::printf(" %zu", f.alpha().size1());
 	for (std::size_t i = 0; i < f.alpha().size1(); i++) std::printf(" %a", f.alpha()(i, 0));
@@ -129,44 +132,64 @@ void between(Cfg const& c, KernelExpansion<RealVector> const& f) {
 	std::printf("\n");
 }
 
+static std::size_t reuseLimit(Cfg const& c) { return 2 + c.n % 3; }
+
+// "reused trainer" stage (warm = 4).  make() builds a configured trainer, run(t, f) trains it on a FRESH model object f.
+template<class Trainer, class Model, class Make, class Run, class Expansion>
+void reuseStage(Cfg const& c, Make make, Run run, Expansion expansion) {
+	std::size_t m = reuseLimit(c);
+	std::printf("N %s %zu\n", c.id.c_str(), m);
+	std::unique_ptr<Trainer> t(make());
+	configure(*t, c, c.eps);
+	{ Model f1; run(*t, f1); report(c, *t, expansion(f1), "R1"); }                      // (1) to convergence
+	{ std::unique_ptr<Trainer> t2(make()); configure(*t2, c, c.eps); t2->stoppingCondition().maxIterations = m;
+	  Model f2; run(*t2, f2); report(c, *t2, expansion(f2), "RF"); }                       // (2) fresh trainer, iteration limit m
+	t->stoppingCondition().maxIterations = m;
+	Model f3; run(*t, f3); report(c, *t, expansion(f3), "R");                            // (3) the first trainer object again
+}
+
 template<class CacheT>
 void runCsvm(Cfg const& c, AbstractKernelFunction<RealVector>* k) {
+	typedef CSvmTrainer<RealVector, CacheT> TrainerT;
 	std::vector<unsigned int> lab(c.n); for (std::size_t i = 0; i < c.n; i++) lab[i] = (unsigned int)c.y[i];
 	LabeledData<RealVector, unsigned int> data = createLabeledDataFromRange(c.x, lab);
-	KernelClassifier<RealVector> svm;
+	WeightedLabeledData<RealVector, unsigned int> wd(data, 1.0);
+	if (c.trainer == "csvmw") {
+		std::size_t i = 0;
+		for (auto it = wd.weights().elements().begin(); it != wd.weights().elements().end(); ++it, ++i) *it = c.w[i];
+	}
+	bool weighted = c.trainer == "csvmw";
 	bool unc = c.trainer == "csvmu";
 	bool one = c.Cneg == c.Cpos;
 	// csvmu: construct with C = 1 and set the log-encoded parameters through the parameter interface
-	typedef CSvmTrainer<RealVector, CacheT> TrainerT;
-	std::unique_ptr<TrainerT> tp(one ? new TrainerT(k, unc ? 1.0 : c.Cneg, c.bias != 0, unc)
-	                                 : new TrainerT(k, unc ? 1.0 : c.Cneg, unc ? 1.0 : c.Cpos, c.bias != 0, unc));
+	auto make = [&]() -> TrainerT* {
+		TrainerT* t = one ? new TrainerT(k, unc ? 1.0 : c.Cneg, c.bias != 0, unc)
+		                  : new TrainerT(k, unc ? 1.0 : c.Cneg, unc ? 1.0 : c.Cpos, c.bias != 0, unc);
+		if (unc) {
+			RealVector kp = k->parameterVector();
+			RealVector pv(kp.size() + (one ? 1 : 2));
+			for (std::size_t i = 0; i < kp.size(); i++) pv(i) = kp(i);
+			pv(kp.size()) = c.Cneg; if (!one) pv(kp.size() + 1) = c.Cpos;
+			t->setParameterVector(pv);
+		}
+		return t;
+	};
+	auto run = [&](TrainerT& t, KernelClassifier<RealVector>& svm) { if (weighted) t.train(svm, wd); else t.train(svm, data); };
+	if (c.warm == 4) {
+		reuseStage<TrainerT, KernelClassifier<RealVector> >(c, make, run,
+			[](KernelClassifier<RealVector>& f) -> KernelExpansion<RealVector> const& { return f.decisionFunction(); });
+		return;
+	}
+	std::unique_ptr<TrainerT> tp(make());
 	TrainerT& t = *tp;
-	if (unc) {
-		RealVector kp = k->parameterVector();
-		RealVector pv(kp.size() + (one ? 1 : 2));
-		for (std::size_t i = 0; i < kp.size(); i++) pv(i) = kp(i);
-		pv(kp.size()) = c.Cneg; if (!one) pv(kp.size() + 1) = c.Cpos;
-		t.setParameterVector(pv);
-	}
+	KernelClassifier<RealVector> svm;
 	RealVector reg = t.regularizationParameters();
-	if (c.trainer == "csvmw") {
-		WeightedLabeledData<RealVector, unsigned int> wd(data, 1.0);
-		std::size_t i = 0;
-		for (auto it = wd.weights().elements().begin(); it != wd.weights().elements().end(); ++it, ++i) *it = c.w[i];
-		if (c.warm) {
-			if (c.warm == 2) t.setRegularizationParameters(4.0 * reg);
-			configure(t, c, c.warm == 3 ? c.eps : 0.1); t.train(svm, wd); between(c, svm.decisionFunction());
-			if (c.warm == 2) t.setRegularizationParameters(reg);
-		}
-		configure(t, c, c.eps); t.train(svm, wd);
-	} else {
-		if (c.warm) {
-			if (c.warm == 2) t.setRegularizationParameters(4.0 * reg);
-			configure(t, c, c.warm == 3 ? c.eps : 0.1); t.train(svm, data); between(c, svm.decisionFunction());
-			if (c.warm == 2) t.setRegularizationParameters(reg);
-		}
-		configure(t, c, c.eps); t.train(svm, data);
+	if (c.warm) {
+		if (c.warm == 2) t.setRegularizationParameters(4.0 * reg);
+		configure(t, c, c.warm == 3 ? c.eps : 0.1); run(t, svm); between(c, svm.decisionFunction());
+		if (c.warm == 2) t.setRegularizationParameters(reg);
 	}
+	configure(t, c, c.eps); run(t, svm);
 	report(c, t, svm.decisionFunction());
 }
 
@@ -175,22 +198,29 @@ void runCase(Cfg const& c) {
 	if (c.kernel == "lin") kernel.reset(new LinearKernel<RealVector>());
 	else kernel.reset(new GaussianRbfKernel<RealVector>(c.gamma));
 	g_id = c.id; g_k = 0; g_matrix = false;
+	auto ident = [](KernelExpansion<RealVector>& f) -> KernelExpansion<RealVector> const& { return f; };
 	if (c.trainer == "csvm" || c.trainer == "csvmw" || c.trainer == "csvmu") {
 		if (c.ctype == "f") runCsvm<float>(c, kernel.get()); else runCsvm<double>(c, kernel.get());
 	} else if (c.trainer == "epssvr") {
+		typedef EpsilonSvmTrainer<RealVector, double> TrainerT;
 		std::vector<RealVector> lab(c.n, RealVector(1)); for (std::size_t i = 0; i < c.n; i++) lab[i](0) = c.y[i];
 		LabeledData<RealVector, RealVector> data = createLabeledDataFromRange(c.x, lab);
-		KernelExpansion<RealVector> f;
-		EpsilonSvmTrainer<RealVector, double> t(kernel.get(), c.Cpos, c.param);
 		g_matrix = true;
-		configure(t, c, c.eps); t.train(f, data);
-		report(c, t, f);
+		auto make = [&]() -> TrainerT* { return new TrainerT(kernel.get(), c.Cpos, c.param); };
+		auto run = [&](TrainerT& t, KernelExpansion<RealVector>& f) { t.train(f, data); };
+		if (c.warm == 4) { reuseStage<TrainerT, KernelExpansion<RealVector> >(c, make, run, ident); return; }
+		std::unique_ptr<TrainerT> t(make()); KernelExpansion<RealVector> f;
+		configure(*t, c, c.eps); run(*t, f);
+		report(c, *t, f);
 	} else {
+		typedef OneClassSvmTrainer<RealVector, double> TrainerT;
 		UnlabeledData<RealVector> data = createDataFromRange(c.x);
-		KernelExpansion<RealVector> f;
-		OneClassSvmTrainer<RealVector, double> t(kernel.get(), c.param);
-		configure(t, c, c.eps); t.train(f, data);
-		report(c, t, f);
+		auto make = [&]() -> TrainerT* { return new TrainerT(kernel.get(), c.param); };
+		auto run = [&](TrainerT& t, KernelExpansion<RealVector>& f) { t.train(f, data); };
+		if (c.warm == 4) { reuseStage<TrainerT, KernelExpansion<RealVector> >(c, make, run, ident); return; }
+		std::unique_ptr<TrainerT> t(make()); KernelExpansion<RealVector> f;
+		configure(*t, c, c.eps); run(*t, f);
+		report(c, *t, f);
 	}
 }
 
